@@ -185,7 +185,7 @@ async def run_e2e(job):
     name = job.get('name', 'dev1')
     mode = job['mode']
     sim = simslave.SimSlave(name, job['ports'], device=job.get('device'), flags=job.get('flags', ['listen']),
-                            latencies=[x / 1000.0 for x in job.get('lat', [10])])
+                            latencies=[x / 1000.0 for x in job.get('lat', [10])], session_floor=job.get('session_floor', 10))
     await start_master(M, sim)
     vc_log = []
     M.core_events.register_handler(make_recorder(M, vc_log, name + '.'))
@@ -205,6 +205,20 @@ async def run_e2e(job):
         return res
     slave = M.slaves_devices.get(name)
 
+    # the order in which the master consumes what the device reports: every event when Slave.handle_event receives it (the
+    # answers to the master's own GET requests are logged by the simulated device when they arrive)
+    orig_handle_event = slave.handle_event
+
+    async def logged_handle_event(event):
+        entry = [vloop.vtime_ms(), 'event', [copy.deepcopy(event)]]
+        sim.delivered.append(entry)
+        try:
+            return await orig_handle_event(event)
+        except Exception:
+            entry[1] = 'event-rejected'      # e.g. port-add of a port a resync has already added: not taken over
+            raise
+    slave.handle_event = logged_handle_event
+
     push_tasks = []
     if mode == 'push':
         async def deliver(ev):
@@ -214,10 +228,9 @@ async def run_e2e(job):
             auth = M.core_api_auth.make_auth_header(M.core_api_auth.ORIGIN_DEVICE, username=None,
                                                     password_hash=slave.get_admin_password_hash())
             h = Handler('POST', '/api/devices/%s/events' % name, level=0, headers={'Authorization': auth})
-            sim.delivered.append([vloop.vtime_ms(), 'push', [copy.deepcopy(ev)]])
             rr = await api_result(M.slaves_api.post_slave_device_events(h, name=name, params=ev))
-            if rr[0] == 'error':
-                res['errors'].append('pushed event refused: %r' % (rr,))
+            if rr[0] == 'error':         # e.g. an event about a port that a resync has already removed
+                res.setdefault('push_refused', []).append(jsonable(rr[:3]))
         chain = {'last': None}
 
         def hook(ev):
@@ -251,9 +264,12 @@ async def run_e2e(job):
             t += 0.25
             ok = sim.net_up and (mode == 'push' or (slave.is_online() and slave.is_ready()))
             ok = ok and all(not p._remote_value_queue or not p.is_enabled() for p in slave._get_local_ports())
-            ok = ok and sim.inflight == 0 and all(tk.done() for tk in push_tasks)
+            ok = ok and (mode == 'poll' or sim.inflight == 0) and all(tk.done() for tk in push_tasks)
             if mode == 'poll':
                 ok = ok and sim.polls_since_change >= 2
+            if mode == 'listen':             # the master's listen call is waiting at the device and nothing is queued for it
+                sess = sim.sessions.get(slave._listen_session_id)
+                ok = ok and sess is not None and not sess.queue and sess.future is not None and not sess.future.done()
             stable = stable + 0.25 if ok else 0.0
             if stable >= (2.0 if mode != 'push' else 4.0):
                 return True
@@ -263,6 +279,7 @@ async def run_e2e(job):
         dt, kind, args = op[0], op[1], op[2:]
         if dt:
             await asyncio.sleep(dt / 1000.0)
+        res.setdefault('op_marks', []).append([len(sim.requests), len(simslave.FakeAsyncHTTPClient.attempts), vloop.vtime_ms()])
         try:
             if kind == 'sv':
                 sim.set_value(args[0], args[1])
@@ -295,6 +312,7 @@ async def run_e2e(job):
                         Handler('PATCH', '/api/devices/%s/forward/device' % name), name=name, path='/device',
                         params=copy.deepcopy(args[0])))
                 after = bool(slave.is_online())
+                await asyncio.sleep(0.12)        # two iterations of the main loop (attribute caches are per iteration)
                 mp = await master_ports(M, name)
                 md = await master_devices(M)
                 res['edits'].append({'op': i, 't': vloop.vtime_ms(), 'kind': kind, 'args': jsonable(args),
@@ -302,6 +320,7 @@ async def run_e2e(job):
                                      'ports': mp, 'devices': md, 'persisted': await persisted(M, name),
                                      'req_index': len(sim.requests)})
             elif kind == 'sync':
+                sim.set_net(True)
                 ok = await quiesce()
                 res['syncs'].append({
                     'op': i, 't': vloop.vtime_ms(), 'quiescent': ok,
@@ -318,6 +337,7 @@ async def run_e2e(job):
             res['errors'].append('op %d %r raised: %s' % (i, op, traceback.format_exc()[-800:]))
     res['requests'] = jsonable(sim.requests)
     res['refused_by_client'] = jsonable(simslave.FakeAsyncHTTPClient.refused_by_client)
+    res['attempts'] = jsonable(simslave.FakeAsyncHTTPClient.attempts)
     res['delivered'] = jsonable(sim.delivered)
     res['slave_events'] = len(sim.events)
     res['net_refused'] = sim.refused
@@ -355,12 +375,21 @@ async def run_micro(job):
             return ['err']
         return ['val', p.get('value') if p.get('enabled') else None]
 
+    await asyncio.sleep(0)
     res['init'] = dump_mirror(M, slave)
-    for i, st in enumerate(job['steps']):
+    todo = list(job['steps'])
+    i = -1
+    while todo:
+        st = todo.pop(0)
+        i += 1
         kind, args = st[0], st[1:]
-        rec = {'kind': kind}
+        if kind == 'drain':              # main.update() until every enabled port's remote value queue is empty
+            if i < 2000 and any(p._remote_value_queue and p.is_enabled() for p in slave._get_local_ports()):
+                todo[:0] = [['tick'], ['drain']]
+            continue
+        rec = {'kind': kind, 'step': jsonable(st)}
         n0 = len(sim.requests)
-        c0 = len(simslave.FakeAsyncHTTPClient.refused_by_client)
+        c0 = len(simslave.FakeAsyncHTTPClient.attempts)
         try:
             if kind in ('sv', 'sa', 'sadd', 'srm', 'sd', 'sfull'):
                 {'sv': sim.set_value, 'sa': sim.set_port_attr, 'sadd': sim.add_port, 'srm': sim.remove_port,
@@ -381,6 +410,11 @@ async def run_micro(job):
                         item['raised'] = None
                     except Exception as e:
                         item['raised'] = type(e).__name__
+                    except asyncio.CancelledError:
+                        # port.remove() awaits the cancelled write/eval tasks of a port whose tasks never started
+                        item['raised'] = 'CancelledError'
+                        item['tb'] = traceback.format_exc()[-900:]
+                    await asyncio.sleep(0)       # let the tasks of newly created ports start (the loops yield on their next fetch)
                     item['after'] = dump_mirror(M, slave)
                     rec['events'].append(item)
             elif kind == 'drop':             # the session expired: undelivered events are lost
@@ -396,17 +430,18 @@ async def run_micro(job):
                 except Exception as e:
                     rec['raised'] = type(e).__name__
             elif kind == 'poll':
-                rec['dev'] = copy.deepcopy(sim.device)
-                rec['ports'] = [sim.port_json(p) for p in sim.ports]
-                rec['auxs'] = {p: aux_value(p) for p in sim.ports}
+                rec['dev'] = copy.deepcopy(sim.device)                    # GET /device is the first thing _poll_once does
+                rec['was_online'] = bool(slave.is_online())
                 rec['ret'] = await slave._poll_once()
+                rec['ports'] = [sim.port_json(p) for p in sim.ports]      # GET /ports comes after provisioning, if any
+                rec['auxs'] = {p: aux_value(p) for p in sim.ports}
             elif kind == 'offline':
                 slave._online = False
                 await slave._handle_offline()
-            elif kind == 'online':           # what the listen loop / _poll_once do when the device answers again
-                rec['dev'] = copy.deepcopy(sim.device)
+            elif kind == 'online':           # what the listen loop does when the device answers again
                 slave._online = True
                 await slave._handle_online()
+                rec['dev'] = copy.deepcopy(sim.device)                    # the refresh comes after provisioning
                 rec['ports'] = [sim.port_json(p) for p in sim.ports]
                 rec['auxs'] = {p: aux_value(p) for p in sim.ports}
             elif kind == 'set_attr':
@@ -443,8 +478,9 @@ async def run_micro(job):
         except Exception:
             rec['crashed'] = traceback.format_exc()[-600:]
             res['errors'].append('step %d %r raised: %s' % (i, st, rec['crashed']))
+        await asyncio.sleep(0)           # the real loops yield at every HTTP exchange; lets new ports' tasks start
         rec['requests'] = jsonable([r[1:] for r in sim.requests[n0:]])
-        rec['client_refused'] = jsonable([r[1:] for r in simslave.FakeAsyncHTTPClient.refused_by_client[c0:]])
+        rec['attempts'] = jsonable([r[1:] for r in simslave.FakeAsyncHTTPClient.attempts[c0:]])
         rec['after'] = dump_mirror(M, slave)
         rec['undelivered'] = len(pending)
         rec['view'] = await master_ports(M, name)
